@@ -1,9 +1,9 @@
 #!/bin/bash
 # Re-run every check (quick tier) against the archived behaviour-preserving
 # refactorings (refactors/<name>/patch.diff applied to a scratch worktree of
-# /repo's HEAD). Writes refactors/RECHECK.json.
+# /repo's HEAD). Writes refactors/RECHECK.json (OUT=...); CHECKS="C01 C02" restricts the checks.
 cd "$(dirname "$0")/.."
-OUT=refactors/RECHECK.json
+OUT=${OUT:-refactors/RECHECK.json}
 echo "{" > $OUT.tmp
 first=1
 for d in refactors/R*/; do
@@ -13,7 +13,7 @@ for d in refactors/R*/; do
   git -C /repo worktree add -q --detach -f $wt HEAD || continue
   (cd $wt && git apply "$OLDPWD/$d/patch.diff") || { echo "APPLY FAIL $name"; git -C /repo worktree remove --force $wt; continue; }
   alarms=""
-  for c in C01 C02 C03 C04 C05 C06 C07 C08 C09 C10 C11 C12 C13 C14 C15 C18 C19 C20; do
+  for c in ${CHECKS:-C01 C02 C03 C04 C05 C06 C07 C08 C09 C10 C11 C12 C13 C14 C15 C18 C19 C20}; do
     VERIF_REPO=$wt VERIF_SHADOW=/tmp/refac-recheck/shadow ./check $c --no-evidence > /tmp/refac-recheck/out.txt 2>&1
     rc=$?
     if [ $rc -ne 0 ]; then alarms="$alarms $c(rc=$rc)"; grep -E "oracle=" /tmp/refac-recheck/out.txt | head -2; fi
